@@ -81,7 +81,8 @@ class H:
     def tagval(self, base="g", alpha=TAG_ALPHA):
         return alpha[choose(self.name(base), len(alpha))]
 
-    def meas(self, base="m", alpha=("m", "n")):
+    def meas(self, base="m", alpha=None):
+        alpha = alpha or tuple(self.cfg.get("meas_alpha") or ("m", "n"))
         return alpha[choose(self.name(base), len(alpha))]
 
     # ---- database
@@ -574,6 +575,9 @@ def build_update(h, us):
             if mode == "const":
                 kw[attr] = lambda old, vals=vals: dict(vals)
                 mk[attr] = lambda old, vals=vals: dict(vals)
+            elif mode == "mutate":  # edits the mapping it is given and returns that same object
+                kw[attr] = lambda old, vals=vals: (old.update(vals) or old)
+                mk[attr] = lambda old, vals=vals: {**old, **vals}
             else:  # "merge": returns old merged with vals
                 kw[attr] = lambda old, vals=vals: {**old, **vals}
                 mk[attr] = lambda old, vals=vals: {**old, **vals}
